@@ -394,8 +394,9 @@ def _mk_result(row):
     return Result(row["name"], row["rc"], row["status"], row["exec"], completion_time=row["ctime"], hpc_job_id=row["hpc"])
 
 
-def _append(out, row, via):
-    """the call sites that append a result row"""
+def _append(out, row, via, manager=True):
+    """the call sites that append a result row; manager=False: the same call on a non-manager node of a
+    multi-node batch (SLURM_NODEID != 0), which must not record anything"""
     from jade.jobs.results_aggregator import ResultsAggregator
     if via == "direct":        # HpcSubmitter._cancel_job: aggregator.append_result(result) on the processed file
         assert row["batch"] is None
@@ -404,7 +405,7 @@ def _append(out, row, via):
         import jade.jobs.async_cli_command as acc
         import jade.result as jr
         job = types.SimpleNamespace(name=row["name"], cancel_on_blocking_job_failure=False)
-        cmd = acc.AsyncCliCommand(job, "true", out, row["batch"], True, row["hpc"])
+        cmd = acc.AsyncCliCommand(job, "true", out, row["batch"], manager, row["hpc"])
         saved_t, saved_rt = acc.time, jr.time
         now = float(row["ctime"])
         jr.time = lambda: now
@@ -450,8 +451,9 @@ def run_scenario(config, chooser, rng=None, glob_order="sorted", check_quiescent
                 if spec["kind"] == "app":
                     def body(actor, spec=spec):
                         for row in spec["rows"]:
-                            _append(out, row, spec.get("via", "append"))
-                            appended.append((row["batch"], canon_row(row)))
+                            _append(out, row, spec.get("via", "append"), manager=spec.get("manager", True))
+                            if spec.get("manager", True):
+                                appended.append((row["batch"], canon_row(row)))
                     sched.spawn(body)
                 else:
                     rets[k] = []
@@ -600,8 +602,9 @@ def judge(config, res):
     for qp in res["quiescent_problems"][:1]:
         o = qp["problems"][0]["oracle"]
         out.append(("quiescent:" + o.split(" ")[0], "in a state with nobody inside a locked section: " + o, qp))
-    all_rows = [canon_row(r) for spec in config["actors"] for r in spec.get("rows", [])]
-    node_rows = [canon_row(r) for spec in config["actors"] for r in spec.get("rows", []) if r["batch"] is not None]
+    # rows "written" on a non-manager node of a multi-node batch must never reach a file
+    all_rows = [canon_row(r) for spec in config["actors"] if spec.get("manager", True) for r in spec.get("rows", [])]
+    node_rows = [canon_row(r) for spec in config["actors"] if spec.get("manager", True) for r in spec.get("rows", []) if r["batch"] is not None]
     has_final = any(spec.get("final") for spec in config["actors"])
     if has_final and not res["stuck"]:
         if res["final_list"] is None:
